@@ -322,6 +322,41 @@ def main(run):
             else:
                 no_input = True
         run.violation(what, replay, tag="%s%d" % (kind, nbad), no_input=no_input)
+    # exhaustive small scope: every history of `depth` events on one session over
+    # {S con/non, A/R/T/P for every id submitted so far, U, F1, F4}, three configurations
+    if not getattr(run, "replay", None):
+        depth = 5 if quick else 6
+        sweep_cfgs = [(1, 1, True), (2, 1, False), (1, 2, True)]
+        sw = [(p, o) for (ns_, rt, e0) in sweep_cfgs for p, o in gen_nstart.enum_cases(depth, ns_, rt, e0)]
+        sl = [gen_nstart.line_of(p, o) for p, o in sw]
+        sc, scr = run_cases(drv, sl, chunk=5000, t_chunk=60)
+        sm, _ = vlib.run_lines_robust(model, sl)
+        smon_in = [mon_line(p, o, sc[i]) for i, (p, o) in enumerate(sw)]
+        smon, _ = vlib.run_lines_robust(model, [x if x is not None else "nsmon 0" for x in smon_in])
+        sbad = 0
+        for i, (p, o) in enumerate(sw):
+            why = None
+            if sc[i] in ("HANG", "<not run>") or sc[i].startswith("CRASH") or sc[i].startswith("ERROR"):
+                why = "the library crashes or never returns (%s)" % sc[i]
+            elif smon_in[i] is None or (smon[i] != "ok" and peer_ok(o, sc[i])):
+                why = "history rejected by the property checker (%s)" % (smon[i] if smon_in[i] else "unparsed")
+            elif canon(sm[i], o) != canon(sc[i], o):
+                why = "implementation differs from the proved model"
+            if why:
+                sbad += 1
+                if sbad <= 2:
+                    nbad += 1
+                    run.violation(why + " [exhaustive sweep]",
+                                  "case: %s\nimpl : %s\nmodel: %s\nchecker on impl trace: %s\n"
+                                  "replay: echo '<case>' | .build/obj/base/h_nstart\n"
+                                  % (sl[i], sc[i], sm[i], smon[i]), tag="sweep%d" % nbad,
+                                  no_input=(why.startswith("implementation differs")))
+        run.cov["leaf_sweep"] = {"cases": len(sl), "disagreements": sbad,
+                                 "exhaustive_over": "all histories of exactly %d events over {S con, S non, "
+                                 "A/R/T/P of each id submitted so far (<= 3), U, F1, F4} for (NSTART, "
+                                 "max_retransmit, established at start) in %s" % (depth, sweep_cfgs)}
+        run.cov["evaluations"] += len(sl)
+
     # thorough tier: the same corpus + a slice of the generated histories on an ASan/UBSan build of
     # the library (objects instrumented, see DESIGN 5.4): same observations, no sanitizer report
     if not quick and not getattr(run, "replay", None):
